@@ -209,7 +209,7 @@ fn final_spec() -> impl Strategy<Value = OpSpec> {
 }
 
 pub fn check_tree(c: &Ctx, specs: &[OpSpec]) -> CaseResult {
-    let cfg = GenCfg { names: NAMES3, avoid_through_link: true, plain_spelling: true, wild: false };
+    let cfg = GenCfg { names: NAMES3, avoid_through_link: true, plain_spelling: true, wild: false, handles: false };
     let r = c01::check_history(c, specs, &cfg, &c01::OPTS, "ops");
     r
 }
@@ -385,7 +385,7 @@ pub fn run(c: &Ctx) {
             let r = check_tree(c, specs);
             if r.is_ok() {
                 // cheap extra oracle on the same history
-                let cfg = GenCfg { names: NAMES3, avoid_through_link: true, plain_spelling: true, wild: false };
+                let cfg = GenCfg { names: NAMES3, avoid_through_link: true, plain_spelling: true, wild: false, handles: false };
                 let mut ex = 0;
                 let (st, _) = run_specs(specs, &cfg, &StepOpts { model_compare: false, api_view: false }, &mut ex);
                 return exec_readonly_agree(&st.ops).map_err(|f| f.with_case("ops", json!(st.ops)));
